@@ -374,6 +374,16 @@ func TestC19_Cohort(t *testing.T) {
 			a.DefMode = uint8(ir(t, 1, 5, "defMode"))
 		}
 		a.X = genCohortRich(t)
+		switch op.name {
+		case "Float64/Float32", "Float", "Int", "Int64/Int32/Uint64/Uint32":
+			// conversions decide "too small / too large" from the stored exponent before they look at the digits:
+			// put short coefficients (rich cohorts) at the ends of the target type's range
+			if ir(t, 0, 1, "rangeEnd") == 0 {
+				lead := []int{-324, -308, 308, -45, -38, 38, 19, 9, 0}[ir(t, 0, 8, "end")] + ir(t, -3, 3, "leadOff")
+				c := genDigits(t, ir(t, 1, 6, "len"))
+				a.X = DFin(genSign(t), c, clampExp(lead-ref.DecLen(c)+1))
+			}
+		}
 		a.X2 = genCohortMember(t, a.X)
 		if op.arity == 2 {
 			switch ir(t, 0, 4, "yKind") {
